@@ -847,9 +847,11 @@ def run_one(ctx, ps, chk, c, m, bres):
     if c['kind'] != 'calc':
         runs['boundscheck'] = bres
     byT = {}
-    for T in NTHREADS:
+    # every case at its own thread count; every third case additionally at all four (thread independence)
+    for T in (NTHREADS if c['mesh_seed'] % 3 == 0 else (c['nthread'],)):
         cc = dict(c, nthread=T)
         byT[T] = run_kernel(ps, cc, 'jit')
+        ctx.count('thread-sweeps' if T != c['nthread'] else 'own-thread-count')
     runs['jit'] = byT[c['nthread']]
     if c['n'] <= 6 and c['kind'] != 'calc':
         runs['py_func'] = run_kernel(ps, c, 'py')
